@@ -560,6 +560,80 @@ func stringLess(rsi, rsj string, desc bool) int {
 	return b
 }
 
+// CompareCells compares two cells holding values of the same kind: int64 and
+// float64 literals numerically, text literals and strings as text, time anchors
+// chronologically and every other value by its printed form. It returns a
+// negative, zero or positive number, and false (with zero) when the cells hold
+// values of different kinds.
+func CompareCells(ci, cj *Cell) (int, bool) {
+	cmpStr := func(a, b string) int {
+		a, b = strings.TrimSpace(a), strings.TrimSpace(b)
+		switch {
+		case a < b:
+			return -1
+		case a > b:
+			return 1
+		}
+		return 0
+	}
+	switch {
+	case ci == nil || cj == nil:
+		return 0, false
+	case ci.S != nil && cj.S != nil:
+		return cmpStr(*ci.S, *cj.S), true
+	case ci.N != nil && cj.N != nil:
+		return cmpStr(ci.N.String(), cj.N.String()), true
+	case ci.P != nil && cj.P != nil:
+		return cmpStr(ci.P.String(), cj.P.String()), true
+	case ci.T != nil && cj.T != nil:
+		switch {
+		case ci.T.Before(*cj.T):
+			return -1, true
+		case ci.T.After(*cj.T):
+			return 1, true
+		}
+		return 0, true
+	case ci.L != nil && cj.L != nil:
+		if ci.L.Type() != cj.L.Type() {
+			return 0, false
+		}
+		switch ci.L.Type() {
+		case literal.Int64:
+			vi, _ := ci.L.Int64()
+			vj, _ := cj.L.Int64()
+			switch {
+			case vi < vj:
+				return -1, true
+			case vi > vj:
+				return 1, true
+			}
+			return 0, true
+		case literal.Float64:
+			vi, _ := ci.L.Float64()
+			vj, _ := cj.L.Float64()
+			switch {
+			case vi < vj:
+				return -1, true
+			case vi > vj:
+				return 1, true
+			}
+			return 0, true
+		case literal.Text:
+			vi, _ := ci.L.Text()
+			vj, _ := cj.L.Text()
+			switch {
+			case vi < vj:
+				return -1, true
+			case vi > vj:
+				return 1, true
+			}
+			return 0, true
+		}
+		return cmpStr(ci.L.ToComparableString(), cj.L.ToComparableString()), true
+	}
+	return 0, false
+}
+
 // CellString create a pointer for the provided string.
 func CellString(s string) *string {
 	return &s
@@ -577,28 +651,10 @@ func rowLess(ri, rj Row, c SortConfig) bool {
 	if !ok {
 		log.Fatalf("Could not retrieve binding %q! %v %v", cfg.Binding, ri, rj)
 	}
-	si, sj := "", ""
-	// Check if it has a string.
-	if ci.S != nil && cj.S != nil {
-		si, sj = *ci.S, *cj.S
+	l, _ := CompareCells(ci, cj)
+	if cfg.Desc {
+		l = -l
 	}
-	// Check if it has a nodes.
-	if ci.N != nil && cj.N != nil {
-		si, sj = ci.N.String(), cj.N.String()
-	}
-	// Check if it has a predicates.
-	if ci.P != nil && cj.P != nil {
-		si, sj = ci.P.String(), cj.P.String()
-	}
-	// Check if it has a literal.
-	if ci.L != nil && cj.L != nil {
-		si, sj = ci.L.ToComparableString(), cj.L.ToComparableString()
-	}
-	// Check if it has a time anchor.
-	if ci.T != nil && cj.T != nil {
-		si, sj = ci.T.Format(time.RFC3339Nano), cj.T.Format(time.RFC3339Nano)
-	}
-	l := stringLess(si, sj, cfg.Desc)
 	if l < 0 {
 		return true
 	}
